@@ -599,6 +599,12 @@ fn generate_single(r: &mut Rng, tier: Tier) -> C15 {
             src.push(Step::Xfer(1 + r.below(gran.min(4) as u64) as u32));
         }
     }
+    // a big frame delivered in uniform small pieces from its first to its last byte (every read is a short read)
+    let mut uniform_repeat = None;
+    if big && r.chance(1, 4) {
+        src = vec![Step::Xfer(*r.pick(&[1u32, 1, 2, 7, 1448, 4096]))];
+        uniform_repeat = Some(1u32 << 20);
+    }
     let npend = src.iter().filter(|s| **s == Step::Pending).count();
     let cancel_rate = *r.pick(&[1u64, 4, 8]);
     let caller: Vec<Decide> = (0..npend).map(|_| if en_cancel && r.chance(cancel_rate, 16) { Decide::Cancel } else { Decide::Poll }).collect();
@@ -629,7 +635,7 @@ fn generate_single(r: &mut Rng, tier: Tier) -> C15 {
         touch: r.chance(1, 3),
         scribble: r.chance(1, 3),
         late_cancel: r.chance(1, 3),
-        src_repeat: gen_repeat(r, shape.history || shape.marathon),
+        src_repeat: uniform_repeat.unwrap_or_else(|| gen_repeat(r, shape.history || shape.marathon)),
         src,
         caller,
     }
